@@ -95,7 +95,16 @@ func C13(ctx *Ctx) {
 	}
 	// ---- Attach shape
 	func() {
-		fail := func(c, msg string) { R.Fail("attach", "Attach:"+c, apos, msg) }
+		// when the SSA shape below is not recognised the obligations are decided on the
+		// abstract result instead (c13sem.go); only if that fails too is the rule violated
+		fail := func(c, msg string) {
+			if sem := attachSemantic(ctx, attach, busT); len(sem) == 0 {
+				R.Pass("attach", "Attach", apos, "aligned ranges: table[start>>4 + T] = mem while <= end>>4, under both alignment tests; misaligned: non-nil error (decided on the abstract result; loop shape not the recognised one: "+msg+")")
+				return
+			} else {
+				R.Fail("attach", "Attach:"+c, apos, msg+"; on the abstract result: "+strings.Join(sem, "; "))
+			}
+		}
 		var stores []*ssa.Store
 		for _, s := range tableStores {
 			if s.Parent() == attach {
@@ -317,7 +326,14 @@ func C13(ctx *Ctx) {
 	}
 	dpos := ctx.Prog.Pos(dump.Pos())
 	func() {
-		fail := func(rule, c, msg string) { R.Fail(rule, "EaDump:"+c, dpos, msg) }
+		fail := func(rule, c, msg string) {
+			if sem := dumpSemantic(ctx, dump, busT); len(sem) == 0 {
+				R.Pass("dump", "EaDump", dpos, "every backend read is at a = start+p on table[a>>4] under a <= end and lands in data[p] (decided on the abstract result; loop shape not the recognised one: "+msg+")")
+				return
+			} else {
+				R.Fail(rule, "EaDump:"+c, dpos, msg+"; on the abstract result: "+strings.Join(sem, "; "))
+			}
+		}
 		startP, endP, dataP := dump.Params[1], dump.Params[2], dump.Params[3]
 		loops := loopsOf(dump)
 		if len(loops) != 1 {
